@@ -152,15 +152,17 @@ pub fn attribute(kind: &str, out: &mut [&'static str; 6]) -> usize {
             if panic {
                 push("C11", &mut n);
             }
-            if consuming {
-                push("C12", &mut n);
-            }
             if n == 0 {
+                // giving a handle up through try_unwrap / make_mut / the raw API is a
+                // way of dropping it: the base property still applies, and C12 too
                 if kind == "premature-destruction" {
                     push("C01", &mut n);
                 } else {
                     push("C02", &mut n);
                 }
+            }
+            if consuming {
+                push("C12", &mut n);
             }
         }
         if is_memory_kind(kind) {
